@@ -202,6 +202,13 @@ def fsStep (cfg : Cfg) (fs : FS) : Op → FS × Out
     let r := fs.readdirnames cfg.dir
     (r.1, .names (r.2.filterMap decodeName))
 
+/-- `Put` of a key that `ci.MarshalPrivateKey` rejects (sealed / non-exportable key material): the name
+check comes first, the marshal error is returned before any file-system access — nothing changes -/
+def fsPutUnmarshalable (fs : FS) (name : Bytes) : FS × Out :=
+  match encodeName name with
+  | none => (fs, .invalid)
+  | some _ => (fs, .error)
+
 /-! ### memkeystore.go -/
 
 abbrev Mem := AMap.Map Bytes Bytes
